@@ -19,11 +19,18 @@ var YieldHook func(site int)
 // crypto is not counted).
 var Steps uint64
 
+// Hit marks the yield sites passed at least once (statement coverage of
+// package cose as seen by the simulator).  Sized by the generated site table.
+var Hit = make([]bool, 1<<14)
+
 // Yield is inserted before every statement of package cose.
 //
 //go:norace
 func Yield(site int) {
 	Steps++
+	if site < len(Hit) {
+		Hit[site] = true
+	}
 	if h := YieldHook; h != nil {
 		h(site)
 	}
